@@ -141,6 +141,15 @@ func (x *Exec) execInstr(fr *Frame, st *State, instr ssa.Instruction) {
 		}
 		c := x.smt.Fresh("closure."+fn.Name(), SFn)
 		x.smt.Assert(not(eq(c, "fnil")))
+		x.smt.Assert(eq(app("fcode", c), x.fnCode(fn)))
+		for k, b := range binds {
+			if k < 3 && len(b.L) == 1 && scalarSort(b.T) == SFn {
+				x.smt.Assert(eq(app(fmt.Sprintf("fbindfn%d", k), c), b.L[0]))
+			}
+			if k < 3 && len(b.L) == 1 && isRefType(b.T) {
+				x.smt.Assert(eq(app(fmt.Sprintf("fbindref%d", k), c), b.L[0]))
+			}
+		}
 		fr.vals[t] = Val{T: t.Type(), L: []string{c}, Fn: fn, Bind: binds}
 	case *ssa.Lookup:
 		fr.vals[t] = x.doLookup(fr, st, t)
